@@ -1,2 +1,23 @@
-// Package c01 decides C01 (see DESIGN.md section 4). Not built yet.
+// Package c01 decides C01 (compiled programs behave like the reference
+// toolchain) on the MiniGo fragment: TLC evaluates spec/MiniGo.tla on every
+// (program, input) pair; the compiled program (plain build, non-suspending
+// trace points) must print exactly the predicted observation, the compiler must
+// accept every program without internal error and emit syntactically valid
+// JavaScript.  Native Go guards the specification.
 package c01
+
+import (
+	"verif/core"
+	"verif/gjs"
+	"verif/props/minigo"
+	"verif/reg"
+)
+
+func init() { reg.Register("C01", "model_checking", Run) }
+
+// Run is the C01 check.
+func Run(c *core.Ctx, pool *gjs.Pool) {
+	c.Assumef("the MiniGo fragment: ints, bools, assignment incl. swap, if/else, for with labelled break/continue, switch with fallthrough and default anywhere, calls, closures capturing by reference; other language areas are decided by C03, C06-C09, C14, C15")
+	minigo.Check(c, pool, minigo.Config{Prop: "C01", Families: true, Random: c.Pick(300, 6000), NodeCheck: true,
+		Modes: []minigo.Mode{{Name: "plain"}, {Name: "resumable", Flat: true, Masks: 0}}})
+}
